@@ -99,4 +99,28 @@ def build(recipe):
             macros=[MacroSpec('mcombo', '*[{{'), MacroSpec('mv', ['v'])],
             environments=[EnvironmentSpec('eenv', '[{')],
         )
+    if recipe == 'c12':
+        from pylatexenc.macrospec import MacroSpec, EnvironmentSpec
+        base = default_db()
+        base.add_context_category(
+            'pv-c12',
+            macros=[MacroSpec('dmac', '[{'), MacroSpec('dmacb', '{{')],
+            environments=[EnvironmentSpec('denv', '[')],
+            prepend=True,
+        )
+        return base
     raise ValueError('unknown context recipe %r' % (recipe,))
+
+
+def l2t_c12_db():
+    """default latex2text context plus text specs that discard the C12 constructs"""
+    from pylatexenc import latex2text
+    db = latex2text.get_default_latex_context_db()
+    db.add_context_category(
+        'pv-c12',
+        macros=[latex2text.MacroTextSpec('dmac', discard=True),
+                latex2text.MacroTextSpec('dmacb', discard=True)],
+        environments=[latex2text.EnvironmentTextSpec('denv', discard=True)],
+        prepend=True,
+    )
+    return db
